@@ -5,6 +5,7 @@
 package run
 
 import (
+	"syscall"
 	"fmt"
 	"os"
 	"runtime/debug"
@@ -291,3 +292,14 @@ func envOr(k, d string) string {
 
 // RepoDir is the directory of the library under test.
 func RepoDir() string { return envOr("VERIF_REPO", "/repo") }
+
+// ProcessCPU returns the CPU time (user + system, seconds) this process has
+// used so far. Monitors use differences of it as a load-independent measure of
+// the work a case caused (never the wall clock).
+func ProcessCPU() float64 {
+	var ru syscall.Rusage
+	if syscall.Getrusage(syscall.RUSAGE_SELF, &ru) != nil {
+		return 0
+	}
+	return float64(ru.Utime.Sec+ru.Stime.Sec) + float64(ru.Utime.Usec+ru.Stime.Usec)/1e6
+}
